@@ -79,6 +79,25 @@ Theorem C14_process_slots : forall c target,
   = Ok (mkSt (spec_fork_at_epoch c (target / c_spe c)) (spec_fork_record c (target / c_spe c)) target).
 Proof. exact process_slots_correct. Qed.
 Print Assumptions C14_process_slots.
+(* ... from ANY state consistent with the schedule, not only genesis ... *)
+Theorem C14_process_slots_from_consistent : forall c s0 target,
+  schedule_sorted c -> 0 < c_spe c -> 1 <= e_altair c -> s0 < target -> target / c_spe c < e_electra c ->
+  process_slots c (good c s0) target = Ok (good c target).
+Proof. exact process_slots_from_good. Qed.
+Print Assumptions C14_process_slots_from_consistent.
+(* ... and success is exactly "the target lies before the Electra fork": at its first slot UpgradeToElectra (a stub)
+   makes ProcessSlots return an error, it never yields a mis-typed state *)
+Theorem C14_process_slots_electra_refused : forall c target,
+  schedule_sorted c -> 0 < c_spe c -> 1 <= e_altair c -> e_electra c <= target / c_spe c ->
+  process_slots c (genesis_state c) target = Err.
+Proof. exact process_slots_electra_refused. Qed.
+Print Assumptions C14_process_slots_electra_refused.
+(* with distinct versions, the version reported for a slot names exactly one fork: the specification's *)
+Theorem C14_version_names_unique : forall c slot f,
+  schedule_sorted c -> versions_distinct_b c = true ->
+  fork_version c slot = version_of c f -> f = spec_fork_at_epoch c (slot_to_epoch c slot).
+Proof. exact fork_version_names_unique. Qed.
+Print Assumptions C14_version_names_unique.
 (* the specification's own slot loop (fork triggers of each fork.md, all seven forks) has that closed form *)
 Theorem C14_spec_process_slots : forall c target,
   schedule_sorted c -> 0 < c_spe c -> 1 <= e_altair c -> 0 < target ->
@@ -160,6 +179,21 @@ Theorem C14_fork_version_snapshot_refuted :
   fork_version_orig mainnet_like (400000 * 32) = v_fulu mainnet_like /\
   compute_fork_version mainnet_like 400000 = v_electra mainnet_like.
 Proof. exact fork_version_orig_refuted. Qed.
+(* ... hence the envelope check of the snapshot rejected a correctly signed Capella block and accepted one signed
+   under the Deneb domain (real SHA-256; a toy scheme whose signature is the message shows which message is asked) *)
+Theorem C14_envelope_sig_snapshot_refuted :
+  let toy_verify (pk msg sig : bytes) := bytes_eqb msg sig in
+  let gvr := repeat 7 32 in
+  let slot := 200000 * 32 in
+  let root := block_root sha256 bytes (fun _ b => b) (mkBlock bytes Capella slot 5 (repeat 1 32) (repeat 2 32) (repeat 3 32) []) in
+  let msg_under v := signing_root sha256 root (compute_domain sha256 DOMAIN_BEACON_PROPOSER v gvr) in
+  let env v := envelope_of sha256 bytes (fun _ b => b)
+                 (mkBlock bytes Capella slot 5 (repeat 1 32) (repeat 2 32) (repeat 3 32) (msg_under v)) (fork_digest sha256 v gvr) in
+  verify_signature_orig sha256 bytes toy_verify mainnet_like (env (v_capella mainnet_like)) gvr 5 [] = false /\
+  verify_signature sha256 bytes toy_verify mainnet_like (env (v_capella mainnet_like)) gvr 5 [] = true /\
+  verify_signature_orig sha256 bytes toy_verify mainnet_like (env (v_deneb mainnet_like)) gvr 5 [] = true /\
+  verify_signature sha256 bytes toy_verify mainnet_like (env (v_deneb mainnet_like)) gvr 5 [] = false.
+Proof. exact verify_signature_orig_refuted. Qed.
 (* UpgradeMaybe: `slot == Slot(FORK_EPOCH) * SLOTS_PER_EPOCH` wraps; ALTAIR_FORK_EPOCH = 2^61+1 with 8 slots per
    epoch upgrades the state at slot 8 although every lookup says phase0 for epoch 1 *)
 Theorem C14_upgrade_boundary_snapshot_refuted :
